@@ -37,7 +37,7 @@ def _gen(rng, i=None):
     elif k < 0.4:
         name, prog = 'tmpl:dispatch', gen.tmpl_dispatch(rng, allow_input=rng.random() < 0.7)
     elif k < 0.48:
-        name, prog = 'tmpl:hostile_output', gen.tmpl_hostile_output(rng)
+        name, prog = 'tmpl:hostile_output', gen.tmpl_hostile_output(rng, banner_share=0.6)
         if rng.random() < 0.5:
             prog = prog + gen.read_fragment(rng) + gen.print_chars([rng.choice(gen.HOSTILE)], 3, 1)
     elif k < 0.55:
@@ -64,10 +64,56 @@ def _gen(rng, i=None):
     return name, prog
 
 
+def _mega_case(i, rng, res):
+    """One input line longer than 1 MiB (4-byte characters, shifted so that one of them lies across byte 2^20 of the
+    line) copied by the until-end-of-input program: compiled level 0 and 2 against `hyeong run -O0`.  Far beyond what
+    the reference model is asked to admit; the verdict does not need it."""
+    from . import c14
+    from .lang import render_prog
+    rundir = _RUN['dir']
+    prog = c14.prog_cat(False)
+    text = render_prog(prog)
+    stdin = 'xyz'[:rng.choice([1, 2, 3])] + '\U0001f600' * 263000 + rng.choice(['\n', '\n끝'])
+    res['src'] = 'mega_input'
+    res['key'] = C.sha(text + '\0' + stdin)
+    res['feat'] = ['stdin', 'input_line_longer_than_1MiB']
+    wd = os.path.join(rundir, 'w%d_%d' % (os.getpid(), i))
+    os.makedirs(wd, exist_ok=True)
+    path = P.write_program(wd, 'p.hyeong', text)
+    sb = stdin.encode('utf-8')
+    info = {'program': text, 'stdin': 'a line of %d bytes' % len(sb), 'source': 'mega_input'}
+    try:
+        base = P.run_interp(C.HYEONG, path, 0, sb, cpu=600, wall=2400, hint=('', 'end'))
+        if base.kind != 'end':
+            res['items'].append(('i', 'unoptimised interpreter run on the 1 MiB line unusable (%s)' % base.kind))
+            res['status'] = 'inconclusive'
+            return res
+        for level in (0, 2):
+            st, what, src = K.build_exe(wd, path, level, _RUN.get('numlib'))
+            res['hist']['build:%d:%s' % (level, st)] = 1
+            if st != 'ok':
+                res['items'].append(('i', 'level %d build for the 1 MiB case: %s' % (level, st)))
+                continue
+            obs = K.run_exe(what, sb, cpu=600, wall=2400)
+            d = K.compare_compiled(base, obs, '')
+            if d is None:
+                continue
+            if d.startswith('INCONCLUSIVE'):
+                res['items'].append(('i', 'level %d 1 MiB case %s' % (level, d)))
+                continue
+            res['items'].append(('v', 'L%d:mega:%s' % (level, res['key']), 'compiled program differs from the interpreted program',
+                                 dict(info, level=level, difference=d, compiled=obs.brief())))
+        return res
+    finally:
+        K.rm(wd)
+
+
 def _case(i):
     tier, seed, rundir = _RUN['tier'], _RUN['seed'], _RUN['dir']
     rng = C.rng_for(seed, PID, tier, i)
     res = {'i': i, 'items': [], 'feat': [], 'status': 'ok', 'hist': {}}
+    if i == 0:
+        return _mega_case(i, rng, res)
     name, prog = _gen(rng, i)
     stdin = gen.gen_stdin(rng)
     if name == 'tmpl:stack0_data' and rng.random() < 0.8:
@@ -239,6 +285,7 @@ def main(tier, seed):
                'jump_into_prefix_after_read': (featc.get('jump_into_prefix_after_read', 0), 5),
                'heart_return_to_self': (featc.get('heart_return_to_self', 0), 3),
                'nan_at_handover': (featc.get('nan_at_handover', 0), 2),
+               'input line longer than 1 MiB': (featc.get('input_line_longer_than_1MiB', 0), 1),
                'nan_onto_stack0_after_read': (featc.get('nan_onto_stack0_after_read', 0), 4),
                'big_value_at_handover': (featc.get('big_value_at_handover', 0), 3)}
     return rep.finish(cov, assumptions, t0, minimum)
